@@ -45,3 +45,25 @@ unsigned long sentinel(const unsigned long chain[20])
 		n += chain[i];
 	return n;
 }
+
+/* a length computed from an unvalidated parameter by an unsigned subtraction (wraps for in_len < 8), then tested and used */
+typedef unsigned int err_t;
+
+err_t bad_wrap_len(const octet_t in[], unsigned long in_len, octet_t* out)
+{
+	unsigned long y_len = in_len - 8;
+	if (y_len <= 4)
+		return 1;
+	*out = in[y_len - 1];
+	return 0;
+}
+
+err_t good_wrap_len(const octet_t in[], unsigned long in_len, octet_t* out)
+{
+	unsigned long y_len;
+	if (in_len <= 12)
+		return 1;
+	y_len = in_len - 8;
+	*out = in[y_len - 1];
+	return 0;
+}
